@@ -269,7 +269,9 @@ func commitUnlocksAll(w *load.World, c *core.Collector) {
 		c.Add("LOCKPAIR", "handover:Commit", core.Undecided, "", "anchor (*cache.Transaction).Commit not found", "C11", "C07")
 		return
 	}
-	// find range over writtenCaches and the Unlock on the ranged value
+	// find range over writtenCaches and the Unlock on the ranged value (in Commit, or in the helper
+	// it leaves the release to)
+	commit = homeOf(commit, rangesOverWritten)
 	var unlock *ssa.Call
 	var next *ssa.Next
 	for _, b := range commit.Blocks {
